@@ -151,7 +151,7 @@ def check_modes(run, repo):
                 owner, fn = meta[a]
                 run.check(same(diff, C(hu)), 'TWIN.' + nm, con + '.get_' + a, nm,
                           '%s - %s = %s but must be %d (RT only with ideal-gas translation)'
-                          % (a, b, show(diff), hu), owner.module, fn)
+                          % (a, b, show(diff), hu), owner.module, fn, sig='%s - %s = %s' % (a, b, show(diff, 200)))
                 n_twin += 1
         # DERIV for closed forms
         if closed is True:
@@ -379,7 +379,8 @@ def debye(run, repo, I, store):
             run.check(good, 'REF.debye integrand', 'DebyeVib %s-integrand' % r, 'textbook',
                       'the integrand of the %s-integral (%s, reached from get_%s) is %s at x, expected %s%s'
                       % (r, fref.fn.name, q, show(got), txt, extra), fref.module, fref.fn,
-                      sample={'class': 'DebyeVib', 'integrand': fref.fn.name, 'role': r, 'textbook': txt})
+                      sample={'class': 'DebyeVib', 'integrand': fref.fn.name, 'role': r, 'textbook': txt},
+                      sig=lambda: 'got/expected = %s' % show(got / want, 200) if isinstance(got, Rat) else 'no integrand')
     if len(ints) != 3:
         return
     ints = {k: Rat.atom(a) for k, a in ints.items()}
@@ -775,7 +776,7 @@ def ident(run, repo, I, store):
             run.check(same(q, C(1)), 'IDENT.q', label + '.get_q', 'absent-mode',
                       'all additive contributions of this mode are 0 but its partition function is %s, not 1: '
                       'the species partition function (a product over modes) is annihilated' % show(q),
-                      got[1].module, got[2], sample='%s: sums 0 => q == 1' % label)
+                      got[1].module, got[2], sample='%s: sums 0 => q == 1' % label, sig='q = %s' % show(q, 80))
             n += 1
     return n
 
